@@ -876,6 +876,61 @@ theorem glyph_keyed_grouping_independent_entry_glyf (p1 p2 : List (PatchInfo × 
   obtain ⟨g1, g2⟩ := hagree _ hp12
   exact applyGlyphPatches_split_glyf ps1 ps2' font font1 out2 out12 hu g1 g2 ha1 ha2 ha12
 
+/-! ### the same for a pure decoder function (no `Stateless` hypothesis left)
+
+ASSUMPTION about the real code, not proved: the brotli decoders behind `SharedBrotliDecoder` (c_brotli.rs,
+rust_brotli.rs) compute a pure function of (encoded stream, optional dictionary, max length) — they keep no
+state between calls.  `pureDecoder f` is the model's decoder for such a function `f`. -/
+
+/-- **glyph_keyed_order_independent_pure.**  For ANY pure decoding function `f`: if the decoded patches
+agree on shared gids, every permutation of the (info, patch bytes) list yields the same font. -/
+theorem glyph_keyed_order_independent_pure (f : Bytes → Option Bytes → Nat → Except DErr Bytes)
+    (patches patches' : List (PatchInfo × Bytes)) (font out : Font) (hperm : patches.Perm patches')
+    (hagree : ∀ ps, prepAll font (pureDecoder f) patches = some ps → AgreeAll (ps.map (·.2)))
+    (h : applyGlyphKeyed patches font (pureDecoder f) = .ok out) :
+    applyGlyphKeyed patches' font (pureDecoder f) = .ok out :=
+  glyph_keyed_order_independent_entry patches patches' font out (pureDecoder f) (pureDecoder_stateless f)
+    hperm hagree h
+
+/-- **glyph_keyed_grouping_independent_pure.**  For ANY pure decoding function `f`, any mix of tables:
+`p1` then `p2` on the result against `p1 ++ p2` in one call — every table agrees (`TableAgree`, see
+`glyph_keyed_grouping_independent`). -/
+theorem glyph_keyed_grouping_independent_pure (f : Bytes → Option Bytes → Nat → Except DErr Bytes)
+    (p1 p2 : List (PatchInfo × Bytes)) (font font1 out2 out12 : Font) (hu : UniqueTags font)
+    (hagree : ∀ ps, prepAll font (pureDecoder f) (p1 ++ p2) = some ps → AgreeAll (ps.map (·.2)))
+    (h1 : applyGlyphKeyed p1 font (pureDecoder f) = .ok font1)
+    (h2 : applyGlyphKeyed p2 font1 (pureDecoder f) = .ok out2)
+    (h12 : applyGlyphKeyed (p1 ++ p2) font (pureDecoder f) = .ok out12)
+    (hbase : BaseOk font)
+    (hift : ∀ v2, iftCharstringsOffset (font1.get TAG_IFT) v2 = iftCharstringsOffset (font.get TAG_IFT) v2)
+    (hsz : ∀ b, font1.get TAG_gvar = some b → b.length < 2 ^ 32) :
+    ∀ t, TableAgree font font1 out2 out12 t :=
+  glyph_keyed_grouping_independent_entry p1 p2 font font1 out2 out12 (pureDecoder f)
+    (pureDecoder_stateless f) hu hagree h1 h2 h12 hbase hift hsz
+
+/-- **glyph_keyed_grouping_independent_pure_glyf.**  … and for patches naming neither gvar nor `CFF ` nor
+CFF2 the two routes give the identical font. -/
+theorem glyph_keyed_grouping_independent_pure_glyf (f : Bytes → Option Bytes → Nat → Except DErr Bytes)
+    (p1 p2 : List (PatchInfo × Bytes)) (font font1 out2 out12 : Font) (hu : UniqueTags font)
+    (hagree : ∀ ps, prepAll font (pureDecoder f) (p1 ++ p2) = some ps →
+      Agree TAG_glyf (ps.map (·.2)) ∧
+      ∀ x ∈ ps, TAG_gvar ∉ x.2.tables ∧ TAG_CFF ∉ x.2.tables ∧ TAG_CFF2 ∉ x.2.tables)
+    (h1 : applyGlyphKeyed p1 font (pureDecoder f) = .ok font1)
+    (h2 : applyGlyphKeyed p2 font1 (pureDecoder f) = .ok out2)
+    (h12 : applyGlyphKeyed (p1 ++ p2) font (pureDecoder f) = .ok out12) :
+    out2 = out12 :=
+  glyph_keyed_grouping_independent_entry_glyf p1 p2 font font1 out2 out12 (pureDecoder f)
+    (pureDecoder_stateless f) hu hagree h1 h2 h12
+
+/-- non-vacuity: the harness's identity decoder is `pureDecoder` of a function, and applies a real patch -/
+example :
+    let f : Bytes → Option Bytes → Nat → Except DErr Bytes := fun s _ _ => .ok s
+    let font : Font := [(TAG_IFT, [2,0,0,0,0, 1,1,1,1,1,1,1,1,1,1,1,1,1,1,1,1, 0])]
+    let p : Bytes := [0x69,0x66,0x67,0x6b, 0,0,0,0, 0, 1,1,1,1,1,1,1,1,1,1,1,1,1,1,1,1, 0,0,0,21,
+                      0,0,0,1, 1, 0,1, 0x67,0x6c,0x79,0x66, 0,0,0,19, 0,0,0,21, 7,7]
+    let i : PatchInfo := { uri := "a", iftx := false, compat := [1,1,1,1,1,1,1,1,1,1,1,1,1,1,1,1], bit := 0 }
+    (prepAll font (pureDecoder f) [(i, p)]).isSome = true := by rfl
+
 /-- **glyph_keyed_entry_reduces.**  For ANY decoder (fault-injecting ones included): a successful
 `apply_glyph_keyed_patches` on patch bytes is compat checks ✓ for every patch, `n` successful decoder
 calls `dec 0 … dec (n-1)` in patch order, `n` successful payload parses, and then `applyGlyphPatches`
